@@ -64,6 +64,10 @@ def run_case(c):
             from urllib.parse import quote
             scen.add_trashed(W, td, n + suf, quote(pv, '/'), '2021-01-01T00:00:00', payload='file', tag=loc)
             ents.append((td, n + suf, loc))
+    for n in c['names'][:1]:
+        loc = '/home/u/w/' + n
+        scen.add_trashed(W, scen.HOME_TRASH, n + '_2', quote(loc, '/'), '2021-02-02T00:00:00', payload='file', tag=loc + ' again')
+        ents.append((scen.HOME_TRASH, n + '_2', loc))          # the same path trashed a second time: both must go / both must stay
     W.dir('/home/u/elsewhere')
     for n in c['names']:
         W.link('/home/u/w2/' + n, '/home/u/elsewhere/zz')          # what lives at the original path today is irrelevant
